@@ -97,7 +97,9 @@ def decoy_block():
                E('story', E('storyID', text='N2'), E('storySlug', text='decoy story'), E('item', E('itemID', text='n2'), E('itemSlug', text='decoy item')), E('p', text='decoy paragraph')),
                E('item', E('itemID', text='i1'), E('itemSlug', text='nested item')),
                E('playlist', E('item', E('itemID', text='GFX1')), E('item', E('itemID', text='n1'))),
-               E('roSlug', text='decoy slug'), E('StoryDuration', text='999'), E('p', text='(decoy note)')))
+               E('roSlug', text='decoy slug'), E('StoryDuration', text='999'), E('p', text='(decoy note)'),
+               # an element with the name of the completion record, and the message element names, where no search belongs
+               E('mosromgrmeta', E('roDelete', E('roID', text='RO1'))), E('roCreate', E('roID', text='DECOY'), E('story', E('storyID', text='N1')))))
 
 
 def add_decoys(kids):
@@ -619,7 +621,21 @@ def mutate_doc(rng, text, other_text=None, n=1):
                 for ch in list(e):
                     e.remove(ch)
                 e.text = ''
-    return ET.tostring(root, encoding='unicode')
+    return sprinkle(rng, ET.tostring(root, encoding='unicode'), 0.2)
+
+
+def sprinkle(rng, text, prob=0.3):
+    """the same document with one or two XML comments / processing instructions put in (after any tag, so also between
+    an ID tag and its text): the parser drops them, the document means the same"""
+    if rng.random() >= prob or '<!--' in text or '<![CDATA[' in text:
+        return text
+    for _ in range(rng.randrange(1, 3)):
+        spots = [i + 1 for i, ch in enumerate(text) if ch == '>']
+        if not spots:
+            break
+        k = rng.choice(spots)
+        text = text[:k] + rng.choice(['<!-- note -->', '<!--was S9-->', '<?vendor keep="1"?>', '<!---->']) + text[k:]
+    return text
 
 
 def fuzzed_cases(cases, rng, n_cases, which=('msg', 'ro')):
